@@ -44,6 +44,11 @@ def changed(before, after):
 
 
 def doc_matches(val, want, nmonths, row=None):
+    if want.startswith("rowlist:"):
+        try:
+            return row is not None and len(val) == 12 and all(float(val[i]) == float(row[want[8:] + str(i + 1)]) for i in range(12))
+        except (TypeError, ValueError, KeyError):
+            return False
     if want.startswith("row1p:"):
         return row is not None and abs(float(val) - (1.0 + float(row[want[6:]]))) < 1e-12
     if want.startswith("row:"):
@@ -141,12 +146,13 @@ def main():
     from harness_presets_snapshot import BASE_COUNTRY, BASE_GLOBAL  # written by the driver next to the cases file
     sr = ScenarioRunner()
     for scale, base, cd in (("country", BASE_COUNTRY, rows["ARG"]), ("country", BASE_COUNTRY, rows["AUS"]), ("country", BASE_COUNTRY, rows["JPN"]),
-                            ("country", BASE_COUNTRY, rows["CAN"]), ("country", BASE_COUNTRY, rows["RUS"]), ("global", BASE_GLOBAL, None)):
+                            ("country", BASE_COUNTRY, rows["CAN"]), ("country", BASE_COUNTRY, rows["RUS"]), ("country", BASE_COUNTRY, rows["MWI"]),
+                            ("country", BASE_COUNTRY, rows["PHL"]), ("global", BASE_GLOBAL, None)):
         with contextlib.redirect_stdout(io.StringIO()):
             c_base, _, _ = sr.set_depending_on_option(copy.deepcopy(base), country_data=cd)
         for case in tables["cases"]:
             f, v = case["f"], case["v"]
-            if cd is not None and cd is not rows["ARG"] and f not in ("waste", "crop_disruption", "grasses"):
+            if cd is not None and cd is not rows["ARG"] and f not in ("waste", "crop_disruption", "grasses", "seasonality"):
                 continue  # (further data rows for the families whose documented values are read from the row)
             opts = copy.deepcopy(base)
             if v == "__missing__":
@@ -233,6 +239,18 @@ def main():
 
     # ---- 2c. ... and only the listed combinations are rewritten: with one of the listed options changed the requested shut-off stands
     for kb in tables.get("knownbad", []):
+        # (a shut-off schedule the table does not list for this country is left alone too)
+        rep["dispatch_cases"] += 1
+        opts = copy.deepcopy(BASE_COUNTRY)
+        opts.update(kb["opts"])
+        opts["shutoff"] = "one_month_delayed_shutoff"
+        try:
+            with contextlib.redirect_stdout(io.StringIO()):
+                c, t, loader = sr.set_depending_on_option(opts, country_data=rows[kb["cc"]])
+            if c["DELAY"]["FEED_SHUTOFF_MONTHS"] != 1 or c["DELAY"]["BIOFUEL_SHUTOFF_MONTHS"] != 1:
+                bad("WritesAsDocumented:PatchKnownBad:near-miss", dict(case=kb, changed="shutoff", got=c["DELAY"]))
+        except BaseException as ex:  # noqa
+            bad("Dispatch:exception:knownbad-near-miss:%s" % kb["cc"], dict(case=kb, changed="shutoff", exc=repr(ex)[:120]))
         for k_other, alt in (("cull", "dont_eat_culled"), ("scenario", "no_resilient_foods")):
             if k_other not in kb["opts"] or kb["opts"][k_other] == alt:
                 continue
@@ -249,6 +267,46 @@ def main():
             want = {"continued": opts["NMONTHS"], "short_delayed_shutoff": 2, "long_delayed_shutoff": 3}[kb["opts"]["shutoff"]]
             if c["DELAY"]["FEED_SHUTOFF_MONTHS"] != want:
                 bad("WritesAsDocumented:PatchKnownBad:near-miss", dict(case=kb, changed=k_other, got=c["DELAY"]["FEED_SHUTOFF_MONTHS"], want=want))
+
+    # ---- 2d. the yaml front end: each simulation is run with its own options and the settings' countries and horizon
+    try:
+        import src.scenarios.run_scenarios_from_yaml as fy
+        import src.scenarios.run_model_no_trade as rmnt
+        calls = []
+        orig_rm = rmnt.ScenarioRunnerNoTrade.run_model_no_trade
+
+        def rec_rm(self, title="untitled", **kw):
+            calls.append(dict(title=title, options=copy.deepcopy(kw.get("scenario_option")), countries=copy.deepcopy(kw.get("countries_list"))))
+            return None
+
+        rmnt.ScenarioRunnerNoTrade.run_model_no_trade = rec_rm
+        fy.ScenarioRunnerNoTrade.run_model_no_trade = rec_rm
+        sim1 = dict(copy.deepcopy(BASE_COUNTRY), title="first", CROP_PRODUCTION_MULTIPLIER=0.5, countries=["BRB"])
+        sim2 = {k_: v_ for k_, v_ in copy.deepcopy(BASE_COUNTRY).items() if k_ != "fish"}
+        sim2["title"] = "second"
+        for k_ in ("NMONTHS",):
+            sim1.pop(k_, None)
+            sim2.pop(k_, None)
+        cfg = dict(settings=dict(countries=["MUS", "MLT"], NMONTHS=60), simulations=dict(a=sim1, b=sim2))
+        with contextlib.redirect_stdout(io.StringIO()):
+            fy.run_scenarios_from_yaml(copy.deepcopy(cfg), False, False, False)
+        rep["dispatch_cases"] += 1
+        if len(calls) != 2:
+            bad("YamlFrontEnd:calls", dict(n=len(calls)))
+        else:
+            o2 = calls[1]["options"] or {}
+            if "fish" in o2:
+                bad("AllSetBeforeCompute:yaml:inherited-option", dict(inherited="fish", value=o2.get("fish")))
+            if "CROP_PRODUCTION_MULTIPLIER" in o2:
+                bad("OverrideIsolation:yaml:inherited-override", dict(inherited="CROP_PRODUCTION_MULTIPLIER"))
+            if list(calls[1]["countries"] or []) != ["MUS", "MLT"] or list(calls[0]["countries"] or []) != ["MUS", "MLT"]:
+                bad("YamlFrontEnd:countries", dict(first=calls[0]["countries"], second=calls[1]["countries"]))
+            if o2.get("NMONTHS") != 60:
+                bad("YamlFrontEnd:horizon", dict(got=o2.get("NMONTHS")))
+        rmnt.ScenarioRunnerNoTrade.run_model_no_trade = orig_rm
+        fy.ScenarioRunnerNoTrade.run_model_no_trade = orig_rm
+    except BaseException as ex:  # noqa
+        bad("YamlFrontEnd:exception", dict(exc=repr(ex)[:200]))
 
     # ---- 3. numeric overrides
     from harness_presets_snapshot import BASE_COUNTRY2
